@@ -21,7 +21,8 @@ import vlib
 
 THEOREMS = ["Yardl.C12.every_map_range_is_order_free", "Yardl.C12.sinks_sort_by_a_total_key",
             "Yardl.C12.sorted_sink_order_free", "Yardl.C12.commutative_accumulation_order_free",
-            "Yardl.C12.sorted_keys_order_free", "Yardl.C12.no_tiebreak_is_ambiguous"]
+            "Yardl.C12.sorted_keys_order_free", "Yardl.C12.no_tiebreak_is_ambiguous",
+            "Yardl.C12.regeneration_touches_nothing", "Yardl.C12.file_written_iff_different", "Yardl.C12.generated_files_hold_their_content"]
 
 MANIFEST_OUT = """cpp:
   sourcesOutputDir: ../out/cpp
@@ -183,6 +184,11 @@ def run(report, tier, seed):
             pkg = g.gen_package()
             d = vlib.write_package(sc.path(f"r{j}"), pkg, g.rng, matlab=True)
             found |= _repeat(report, ybin, home, d, ["generate"], f"random-valid-{j}", n_runs=max(3, n_runs // 2), seed=seed, outdir=sc.path(f"r{j}"))
+        inproc = vlib.build_go_harness(sc, "inproc")
+        lean = vlib.LeanDriver("wiredrv")
+        found |= write_if_needed_level(report, sc, inproc, lean, seed, quick)
+        lean.close()
+        found |= target_subsets(report, sc, ybin, home, seed, 2 if quick else 10)
         if not lean_ok and not found:
             bad_sites = [s for s in t["mapranges"] if s.get("cls") == "other"]
             report.violation("lean:Props.C12", {"theorem_or_correspondence": "Props.C12: a map-range site is unclassified or a sink no longer sorts by a total key",
@@ -226,6 +232,91 @@ def _repeat(report, ybin, home, pkgdir, args, name, n_runs, seed, outdir=None):
                              "regenerating an unchanged package rewrote or removed files")
             return True
     return False
+
+
+BLOCKS = [1, 2, 64, 512, 1024, 4096, 8192, 16384, 32768, 65536, 131072]
+
+
+def write_if_needed_level(report, sc, inproc, lean, seed, quick):
+    """iocommon.WriteFileIfNeeded in-process against Det.writeIfNeeded: same content (must not be touched) and a single differing
+    byte at the first / last / block-boundary positions, longer, shorter and missing files, at sizes around every block size"""
+    d = sc.path("win")
+    os.makedirs(d, exist_ok=True)
+    p = subprocess.Popen([inproc, "writeifneeded", d], stdin=subprocess.PIPE, stdout=subprocess.PIPE)
+    rng = random.Random(seed * 7 + 1)
+    sizes = sorted({0, 3} | {b * k + e for b in BLOCKS for k in (1, 2, 3) for e in (-1, 0, 1) if 0 <= b * k + e <= 3 * 65536 + 1})
+    if quick:
+        sizes = [n for n in sizes if n <= 2 * 65536 + 1]
+    found = False
+    reqs = []
+    for n in sizes:
+        reqs.append({"old_size": n, "new_size": n, "flip": -1})
+        reqs.append({"old_size": -1, "new_size": n, "flip": -1})
+        for pos in sorted({0, n - 1, n // 2} | {b * k + e for b in BLOCKS for k in (1, 2) for e in (-1, 0)}):
+            if 0 <= pos < n and (not quick or pos in (0, n - 1) or rng.random() < 0.15):
+                reqs.append({"old_size": n, "new_size": n, "flip": pos})
+        reqs.append({"old_size": n, "new_size": n + 1, "flip": -1})
+        if n:
+            reqs.append({"old_size": n, "new_size": n - 1, "flip": -1})
+    for rq in reqs:
+        p.stdin.write((json.dumps(rq) + "\n").encode())
+        p.stdin.flush()
+        got = json.loads(p.stdout.readline())
+        want = lean.ask(dict(rq, op="write_if_needed"))
+        report.case(distinct_key=("write-if-needed", json.dumps(rq)))
+        report.count("write-if-needed." + ("same" if rq["old_size"] == rq["new_size"] and rq["flip"] < 0 else "different"))
+        if got.get("err") or got.get("touched") != want["touched"] or not got.get("content_ok"):
+            kind = "rewritten-although-unchanged" if (not want["touched"] and got.get("touched")) else "not-written-although-different" if want["touched"] else "other"
+            report.violation(f"write-if-needed:{kind}", {"request": rq, "implementation": got, "model": want, "seed": seed},
+                             "iocommon.WriteFileIfNeeded deviates from 'write exactly when missing or different'")
+            found = True
+            if sum(1 for k, _, _ in report.violations if k.startswith("write-if-needed")) > 5:
+                break
+    p.stdin.close()
+    p.wait()
+    return found
+
+
+SUBSETS = [("python", "python:\n  outputDir: ../outS/py\n"), ("json", "json:\n  outputDir: ../outS/json\n"), ("matlab", "matlab:\n  outputDir: ../outS/matlab\n"),
+           ("cpp", "cpp:\n  sourcesOutputDir: ../outS/cpp\n  generateCMakeLists: true\n  overrideArrayHeader: vf_ndarray.h\n")]
+
+
+def target_subsets(report, sc, ybin, home, seed, n):
+    """what a back end writes depends on the package only - not on which other back ends run before it in the same process"""
+    found = False
+    pkgs = [("directed", modelgen.directed_package()), ("nullable", modelgen.nullable_package()), ("untagged", modelgen.untagged_unions_package(small=True))]
+    for j in range(n):
+        g = modelgen.Gen(seed * 1013 + j)
+        g.avoid_bool_sequences = False
+        pkgs.append((f"random{j}", g.gen_package()))
+    for name, pkg in pkgs:
+        root = sc.path(f"sub-{name}")
+        d = vlib.write_package(root, pkg, random.Random(seed), cpp=False, python=False, js=False, extra_manifest=MANIFEST_OUT.replace("../out/", "../outA/").rstrip("\n"))
+        rc, out, err = run_once(ybin, d, ["generate"], home)
+        if rc != 0:
+            report.violation("generate:model", {"package": name, "error": err[-1500:], "package_dir_files": _pkgfiles(d)}, "")
+            found = True
+            continue
+        man = open(os.path.join(d, "_package.yml")).read()
+        head = man[:man.index("cpp:")]
+        for tgt, section in SUBSETS:
+            open(os.path.join(d, "_package.yml"), "w").write(head + section)
+            outS = os.path.join(root, "outS")
+            subprocess.run(["rm", "-rf", outS])
+            rc, out, err = run_once(ybin, d, ["generate"], home)
+            report.case(distinct_key=("target-subset", name, tgt))
+            report.count("target-subset." + tgt)
+            sub = {"python": "py"}.get(tgt, tgt)
+            a = {k: v[0] for k, v in tree_digest(os.path.join(root, "outA", sub)).items()}
+            b = {k: v[0] for k, v in tree_digest(os.path.join(outS, sub)).items()} if os.path.isdir(os.path.join(outS, sub)) else {}
+            if rc != 0 or a != b:
+                differing = sorted(k for k in set(a) | set(b) if a.get(k) != b.get(k))[:10]
+                report.violation(f"output-depends-on-other-targets:{tgt}", {"package": name, "target": tgt, "rc": rc, "stderr": err[-800:], "differing_files": differing,
+                                                                            "package_dir_files": _pkgfiles(d), "seed": seed},
+                                 "the files a back end writes differ when it runs alone and when it runs after the other back ends")
+                found = True
+        open(os.path.join(d, "_package.yml"), "w").write(man)
+    return found
 
 
 def _pkgfiles(pkgdir):
